@@ -47,9 +47,9 @@ Definition col_swap_remove (i len : nat) (col : list cell) : option (cell * list
   | _, _ => None
   end.
 
-(** [remove_component_row]: column by column, [v.swap_remove(index)] whose
-    result is dropped at once.  Returns the columns, the events, and whether the
-    operation was unwound (then the caller does NOT decrement the length). *)
+(** [remove_component_row] as it was before the repair of finding F8a: column by column,
+    [v.swap_remove(index)] whose result is dropped at once.  Returns the columns, the events, and
+    whether the operation was unwound. *)
 Fixpoint remove_cols (comps : list nat) (i len : nat) (cols : list (list cell)) (f : fault)
   : option (list (list cell) * list pevent * bool) :=
   match comps, cols with
@@ -68,13 +68,57 @@ Fixpoint remove_cols (comps : list nat) (i len : nat) (cols : list (list cell)) 
   | _, _ => None
   end.
 
-(** [Archetype::remove_row_unchecked] (the identifier column has no Drop). *)
-Definition p_remove_row (a : parch) (i : nat) (f : fault) : option (parch * list pevent * bool) :=
-  match remove_cols (bits_on (pa_shape a)) i (pa_len a) (pa_cols a) f with
-  | Some (cols, evs, unwound) =>
-      Some (mkPArch (pa_shape a) cols (if unwound then pa_len a else pa_len a - 1), evs, unwound)
+(** [remove_component_row] with the removed value kept in a local until the recursive call on the
+    remaining columns has returned: the row leaves EVERY column before any [Drop] runs.  The values
+    are then dropped innermost frame first (last column first); a panic in one of them unwinds
+    through the outer frames, whose locals are still dropped. *)
+Fixpoint take_cols (comps : list nat) (i len : nat) (cols : list (list cell))
+  : option (list (list cell) * list (nat * cell)) :=
+  match comps, cols with
+  | [], [] => Some ([], [])
+  | c :: comps', col :: cols' =>
+      match col_swap_remove i len col with
+      | None => None
+      | Some (x, col') =>
+          match take_cols comps' i len cols' with
+          | Some (r, taken) => Some (col' :: r, (c, x) :: taken)
+          | None => None
+          end
+      end
+  | _, _ => None
+  end.
+
+Fixpoint drop_taken (taken : list (nat * cell)) (f : fault) : list pevent * bool :=
+  match taken with
+  | [] => ([], false)
+  | (c, x) :: t =>
+      let '(f', panics) := tick f in
+      let '(evs, p) := drop_taken t f' in
+      (drop_cell c x :: evs, panics || p)
+  end.
+
+Definition remove_cols_deferred (comps : list nat) (i len : nat) (cols : list (list cell)) (f : fault)
+  : option (list (list cell) * list pevent * bool) :=
+  match take_cols comps i len cols with
+  | Some (r, taken) => let '(evs, p) := drop_taken (rev taken) f in Some (r, evs, p)
   | None => None
   end.
+
+(** [Archetype::remove_row_unchecked] (the identifier column has no Drop).  Two things are read off
+    the source (Gen/Facts.v): whether the removed values are dropped only after every column has
+    been shortened ([fact_remove_defers_drops]) and whether the shared length is decremented before
+    the components are touched ([fact_remove_decrements_length_first]); otherwise an unwound
+    removal leaves the old length. *)
+Definition p_remove_row_gen (deferred len_first : bool) (a : parch) (i : nat) (f : fault)
+  : option (parch * list pevent * bool) :=
+  match (if deferred then remove_cols_deferred else remove_cols)
+          (bits_on (pa_shape a)) i (pa_len a) (pa_cols a) f with
+  | Some (cols, evs, unwound) =>
+      Some (mkPArch (pa_shape a) cols (if unwound && negb len_first then pa_len a else pa_len a - 1), evs, unwound)
+  | None => None
+  end.
+Definition p_remove_row (a : parch) (i : nat) (f : fault) : option (parch * list pevent * bool) :=
+  p_remove_row_gen fact_remove_defers_drops fact_remove_decrements_length_first a i f.
 
 (** [Vec::clear] = truncate(0): the length of the local Vec is set to 0 first, then every
     element is dropped in place; the slice drop glue goes on after ONE panic (a second one aborts:
